@@ -438,6 +438,16 @@ var c19Forms = []struct {
 }{{"raw", gcetcbendorsement.BytesRaw}, {"hex", gcetcbendorsement.BytesHex}, {"guid", gcetcbendorsement.BytesHexGuidify},
 	{"base64", gcetcbendorsement.BytesBase64}, {"auto", gcetcbendorsement.BytesAuto}}
 
+type c19SharedInsp struct {
+	insp *gcetcbendorsement.Inspect
+	w    *termBuf
+}
+
+var (
+	c19SharedEndo    = &epb.VMLaunchEndorsement{}
+	c19SharedInspect = map[string]*c19SharedInsp{}
+)
+
 func (rt *c19Root) maskCase(c *Ctx, r *Rng, golden *epb.VMGoldenMeasurement, goldenText string, paths []string, direct [][]byte) {
 	fi := r.Intn(len(c19Forms))
 	if r.Intn(3) == 0 {
@@ -449,9 +459,28 @@ func (rt *c19Root) maskCase(c *Ctx, r *Rng, golden *epb.VMGoldenMeasurement, gol
 	if err != nil {
 		panic(err)
 	}
+	// A long-lived caller: ONE endorsement variable refilled from case to case (as a loop over files with
+	// proto.Unmarshal into the same message does) and ONE Inspect value per (form, terminal) kept for the whole
+	// run — whatever the implementation remembers between calls (decoded payloads, parsed paths) must not leak
+	// from one call into the next. Every third case uses fresh objects instead.
 	endo := &epb.VMLaunchEndorsement{SerializedUefiGolden: ser, Signature: []byte("sig")}
 	w := &termBuf{term: term}
-	ctx := gcetcbendorsement.WithInspect(context.Background(), &gcetcbendorsement.Inspect{Writer: w, Form: form.form})
+	insp := &gcetcbendorsement.Inspect{Writer: w, Form: form.form}
+	if r.Intn(3) != 0 {
+		endo = c19SharedEndo
+		endo.SerializedUefiGolden, endo.Signature = ser, []byte("sig")
+		key := form.name + b2s(term)
+		sh, ok := c19SharedInspect[key]
+		if !ok {
+			sw := &termBuf{term: term}
+			sh = &c19SharedInsp{&gcetcbendorsement.Inspect{Writer: sw, Form: form.form}, sw}
+			c19SharedInspect[key] = sh
+		}
+		sh.w.Reset()
+		insp, w = sh.insp, sh.w
+		c.Count("mask/reused-endorsement-and-inspect")
+	}
+	ctx := gcetcbendorsement.WithInspect(context.Background(), insp)
 	var hs []string
 	for _, p := range paths {
 		hs = append(hs, "p"+hx([]byte(p)))
